@@ -157,7 +157,9 @@ def make_scfg(g0, payload='plain'):
                 tree.append(ast.Name(id='c%s' % k, ctx=ast.Load()))
             elif len(v) == 0:
                 tree.append(ast.Return(value=ast.Name(id='x%s' % k, ctx=ast.Load())))
-            blocks[k] = bb.PythonASTBlock(name=k, _jump_targets=v, tree=tree)
+            i = int(k) if k.isdigit() else 0
+            # every payload field carries a non-default value (a PythonASTBlock is a bytecode-range block with a tree)
+            blocks[k] = bb.PythonASTBlock(name=k, _jump_targets=v, tree=tree, begin=10 + 2 * i, end=12 + 2 * i)
     return SCFG(dict(blocks)), blocks
 
 
